@@ -806,7 +806,11 @@ pub fn generate_c13(seed: u64, quick: bool) -> Value {
                 )
             }
         };
-        if rng.chance(1, 5) {
+        // (not in worlds where loading a library has an effect on another one: whether the
+        // healthy library of a failing declaration gets loaded at all depends on the order in
+        // which an implementation takes the import sets)
+        let some_load_effect = libs.iter().any(|l| l["load_effect"].as_bool().unwrap_or(false));
+        if rng.chance(1, 5) && !some_load_effect {
             // a declaration that fails after it has resolved a healthy library: nothing of it
             // is bound, and the libraries it touched stay the instances they are
             let other = key_of(libs[rng.upto(n)]["short"].as_str().unwrap());
